@@ -766,9 +766,12 @@ class Scalars:
         if isinstance(op, ast.Mult):
             return rnd(za * zb)
         if isinstance(op, ast.Div):
-            z = simp(zb == 0)
-            if z is True or (z is not False and self.ctx.branch(zb == 0)):
-                raise PyRaise(builtin_exc('ZeroDivisionError'), 'division by zero')
+            # integer divisor: python semantics (ZeroDivisionError).  float divisor: treated as a
+            # numpy float64 (inf/nan + warning, no exception; quotient by 0 unspecified under R)
+            if to_z3(b).sort() == z3.IntSort() or isinstance(b, int):
+                z = simp(zb == 0)
+                if z is True or (z is not False and self.ctx.branch(zb == 0)):
+                    raise PyRaise(builtin_exc('ZeroDivisionError'), 'division by zero')
             return self.fl_round(to_real(za) / to_real(zb))
         if isinstance(op, ast.FloorDiv):
             z = simp(zb == 0)
